@@ -457,11 +457,117 @@ def coerced_record_nodes() -> Optional[dict]:
     return None
 
 
+def annotated_field_nodes() -> Optional[dict]:
+    """Validators derived from annotations: where a field (or an item) is annotated Annotated[T, <validator>], the
+    validator at that position of the derived tree is what the error node for that position names, and the node holds
+    the field's own value - for plain scalar validators (no predicates, no coercer) as for configured ones."""
+    import dataclasses as _dc
+    import typing
+    from typing import Annotated, NamedTuple, TypedDict
+    from uuid import UUID
+    from koda_validate import (DataclassValidator, IntValidator, ListValidator, Max, NamedTupleValidator, StringValidator, TypedDictValidator,
+                               UUIDValidator, strip)
+    from koda_validate.is_type import TypeValidator
+    from koda_validate.errors import IndexErrs, KeyErrs
+    from koda_validate.typehints import get_typehint_validator
+    from ..corr import drive
+
+    class Dog:
+        pass
+    fields = {"ident": Annotated[UUID, UUIDValidator(coerce=None)], "n": Annotated[int, IntValidator(Max(10))], "plain": Annotated[int, IntValidator()],
+              "s": Annotated[str, "doc", StringValidator(preprocessors=[strip])], "d": Annotated[Dog, TypeValidator(Dog)]}
+    TD = TypedDict("TD", dict(fields))
+    DC = _dc.make_dataclass("DC", list(fields.items()))
+    NT = NamedTuple("NT", list(fields.items()))
+    bad = {"ident": "12345678-1234-5678-1234-567812345678", "n": "x", "plain": True, "s": 5, "d": object()}
+    for name, v in (("TypedDictValidator", TypedDictValidator(TD)), ("DataclassValidator", DataclassValidator(DC)), ("NamedTupleValidator", NamedTupleValidator(NT)),
+                    ("get_typehint_validator(TypedDict)", get_typehint_validator(TD)), ("get_typehint_validator(dataclass)", get_typehint_validator(DC))):
+        for mode in ("sync", "async"):
+            data = dict(bad)
+            r = v(data) if mode == "sync" else drive(v.validate_async(data))
+            if r.is_valid or not isinstance(r.err_type, KeyErrs) or set(r.err_type.keys) != set(bad):
+                return {"signature": "C14:annotated-field", "what": f"{name} over fields annotated with validators ({mode}) on {data!r}: expected one key error per field, got {r!r}"}
+            for k, node in r.err_type.keys.items():
+                if node.validator is not v.schema[k] or node.value is not data[k]:
+                    return {"signature": "C14:annotated-field",
+                            "what": f"{name} ({mode}): the error node for field {k!r} (annotated {fields[k]!r}) names {node.validator!r} "
+                                    f"(the validator at that position: {node.validator is v.schema[k]}) and holds {node.value!r} (the field's own value: {node.value is data[k]})"}
+    for label, ann in (("List[Annotated[int, IntValidator()]]", typing.List[Annotated[int, IntValidator()]]),
+                       ("List[Annotated[UUID, UUIDValidator(coerce=None)]]", typing.List[Annotated[UUID, UUIDValidator(coerce=None)]])):
+        v = get_typehint_validator(ann)
+        for mode in ("sync", "async"):
+            data = ["x", None]
+            r = v(data) if mode == "sync" else drive(v.validate_async(data))
+            if r.is_valid or not isinstance(r.err_type, IndexErrs) or not isinstance(v, ListValidator):
+                return {"signature": "C14:annotated-field", "what": f"validator derived from {label} ({mode}) on {data!r}: got {r!r}"}
+            for i, node in r.err_type.indexes.items():
+                if node.validator is not v.item_validator or node.value is not data[i]:
+                    return {"signature": "C14:annotated-field", "what": f"validator derived from {label} ({mode}): the node for item {i} names {node.validator!r}, "
+                                                                        f"not the item validator at that position, or holds {node.value!r}"}
+    return None
+
+
+def coerced_container_nodes() -> Optional[dict]:
+    """Map / list / set / uniform-tuple validators behind a custom coercer that answers with a *new* container also
+    for values that already are of the container type: every later stage (container predicates, elements, keys and
+    values) is about the coerced container - that object is what those nodes hold and what their entries are of."""
+    from koda import Just, nothing
+    from koda_validate import Coercer, IntValidator, ListValidator, MapValidator, MaxItems, MaxKeys, SetValidator, StringValidator, UniformTupleValidator
+    from koda_validate.errors import CoercionErr, IndexErrs, MapErr, PredicateErrs, SetErrs
+    from ..corr import drive
+    made: list = []
+
+    def dropping(kind):
+        def f(v):
+            if type(v) is kind:
+                made.append(kind((k, v[k]) for k in v if v[k] is not None) if kind is dict else kind(i for i in v if i is not None))
+                return Just(made[-1])
+            return nothing
+        return Coercer(f, {kind})
+    builds = [("MapValidator", dict, lambda ps: MapValidator(key=StringValidator(), value=IntValidator(), predicates=ps, coerce=dropping(dict)), MaxKeys,
+               [{"a": 1, "b": None}, {"a": "x", "b": None}, {1: 1, "b": None}, {"a": 1, "b": 2, "c": None}]),
+              ("ListValidator", list, lambda ps: ListValidator(IntValidator(), predicates=ps, coerce=dropping(list)), MaxItems, [[1, None], ["x", None], [1, 2, None]]),
+              ("UniformTupleValidator", tuple, lambda ps: UniformTupleValidator(IntValidator(), predicates=ps, coerce=dropping(tuple)), MaxItems, [(1, None), ("x", None), (1, 2, None)]),
+              ("SetValidator", set, lambda ps: SetValidator(IntValidator(), predicates=ps, coerce=dropping(set)), MaxItems, [{1, None}, {"x", None}, {1, 2, None}])]
+    for name, kind, mk, P_, xs in builds:
+        for ps in ([], [P_(1)], [P_(0)]):
+            v = mk(ps)
+            for x in xs + ["nope"]:
+                for mode in ("sync", "async"):
+                    del made[:]
+                    r = v(x) if mode == "sync" else drive(v.validate_async(x))
+                    where = f"{name}(coerce=<drops None entries>, predicates={ps!r}) ({mode}) on {x!r}"
+                    if isinstance(x, str):
+                        if r.is_valid or not isinstance(r.err_type, CoercionErr) or r.value is not x:
+                            return {"signature": "C14:value", "what": f"{where}: expected a coercion failure holding the caller's own object, got {r!r}"}
+                        continue
+                    if not made:
+                        return {"signature": "C14:value", "what": f"{where}: the configured coercer was never asked; result {r!r}"}
+                    coerced = made[-1]
+                    if r.is_valid:
+                        if any(i is None for i in (r.val.values() if kind is dict else r.val)):
+                            return {"signature": "C14:value", "what": f"{where}: the payload {r.val!r} holds entries the coerced container {coerced!r} does not have"}
+                        continue
+                    e = r.err_type
+                    if isinstance(e, (PredicateErrs, IndexErrs, MapErr, SetErrs)) and r.value is not coerced:
+                        return {"signature": "C14:value", "what": f"{where}: the {type(e).__name__} node holds {r.value!r} (is the raw input: {r.value is x}), "
+                                                                  f"not the coerced container {coerced!r}"}
+                    if isinstance(e, MapErr) and not set(e.keys) <= set(coerced):
+                        return {"signature": "C14:value", "what": f"{where}: the map error has entries for {set(e.keys)!r}; the coerced mapping has keys {set(coerced)!r}"}
+                    if isinstance(e, IndexErrs) and not all(0 <= i < len(coerced) for i in e.indexes):
+                        return {"signature": "C14:value", "what": f"{where}: index errors {set(e.indexes)!r} outside the coerced container {coerced!r}"}
+    return None
+
+
 def run(tier: str, rng: random.Random, proof_ok: bool) -> dict:
     rep = run_families("C14", cases(tier, rng), rng, oracle, nontrivial)
     crn = coerced_record_nodes()
     if crn:
         rep["violations"].append({"kind": "oracle", **crn, "replay_case": {"coerced_record_nodes": True}})
+    for fn_, key_ in ((annotated_field_nodes, "annotated_field_nodes"), (coerced_container_nodes, "coerced_container_nodes")):
+        r_ = fn_()
+        if r_:
+            rep["violations"].append({"kind": "oracle", **r_, "replay_case": {key_: True}})
     bad, n = histories(tier, rng)
     rep["violations"] += bad
     rep["coverage"]["histories_on_one_instance"] = n
@@ -476,6 +582,11 @@ def replay(path: str) -> int:
         r_ = coerced_record_nodes()
         print("property violated: " + r_["what"] if r_ else "property holds for record validators behind a mapping-building coercer")
         return 1 if r_ else 0
+    for fn_, key_ in ((annotated_field_nodes, "annotated_field_nodes"), (coerced_container_nodes, "coerced_container_nodes")):
+        if isinstance(rc, dict) and rc.get(key_):
+            r_ = fn_()
+            print("property violated: " + r_["what"] if r_ else f"property holds ({key_})")
+            return 1 if r_ else 0
     judge = lambda d: type(d["got"]) is Invalid or type(d["alone"]) is Invalid
     r = replay_special(rc, "C14", judge=judge) if isinstance(rc, dict) else None
     return r if r is not None else generic_replay(path, oracle)
